@@ -190,7 +190,9 @@ def builtinMethod (b : String) (v : Val) : Option Val :=
   | "is_some" => match v.autoDeref with | .adt c _ _ => some (.bool (c == "Some")) | _ => none
   | "double" => match v.autoDeref with | .int n => some (.int (2 * n)) | _ => none
   | "first" => match v.autoDeref with | .seq (x :: _) => some x | _ => none
-  | _ => none
+  | b =>
+    if b.startsWith "field:" then v.field (.ident ⟨(b.drop 6).toString, default⟩)   -- a getter
+    else none
 
 def rustPrims (m : Meanings) : Prims where
   debug := debugVal
